@@ -49,6 +49,11 @@ func (e *Engine) addCrypto(st *State, ent cryptoEntry) {
 func (e *Engine) msgOf(st *State, s *SliceV) Value {
 	if !s.IsNil() {
 		if d, ok := e.get(st, s.Obj).(*JDocV); ok {
+			if d.HTMLEsc && jnodeHasHTMLChar(d.Root) {
+				r := *d.Root
+				r.Esc = true
+				return &r
+			}
 			return d.Root
 		}
 	}
@@ -60,6 +65,10 @@ func (e *Engine) msgEq(st *State, a, b Value) *Term {
 	nb, bDoc := b.(*JNode)
 	switch {
 	case aDoc && bDoc:
+		if na.Esc != nb.Esc {
+			// the same value in two spellings is two messages
+			return e.tb.False
+		}
 		return e.nodeEq(na, nb)
 	case !aDoc && !bDoc:
 		return e.strEq(a.(*StrV), b.(*StrV))
@@ -196,8 +205,12 @@ func init() {
 		return func(e *Engine, st *State, args []Value, fn *ssa.Function) []Outcome {
 			s := args[argIdx].(*SliceV)
 			if !s.IsNil() {
-				if _, isDoc := e.get(st, s.Obj).(*JDocV); isDoc {
+				if dv, isDoc := e.get(st, s.Obj).(*JDocV); isDoc {
 					e.rep.noteStub(fnKey(fn) + " (identity on J2 documents)")
+					if dv.HTMLEsc {
+						// the result is spelled canonically
+						s = e.newDoc(st, dv.Root)
+					}
 					if fn.Signature.Results().Len() == 2 {
 						return []Outcome{e.errTuple(st, s, nil)}
 					}
@@ -279,3 +292,38 @@ func init() {
 
 var _ = sort.Strings
 var _ = strings.Contains
+
+// jnodeHasHTMLChar: some concrete string or member name of the tree contains a character encoding/json.Marshal escapes
+// beyond what JSON requires ('<', '>', '&', U+2028, U+2029). Symbolic strings count as free of them (spellings of
+// symbolic strings are outside the model).
+func jnodeHasHTMLChar(n *JNode) bool {
+	if n == nil {
+		return false
+	}
+	has := func(s *StrV) bool {
+		if s == nil {
+			return false
+		}
+		c, ok := s.Concrete()
+		return ok && strings.ContainsAny(c, "<>&\u2028\u2029")
+	}
+	if n.Kind == JStr && has(n.Str) {
+		return true
+	}
+	for _, k := range n.Keys {
+		if has(k) {
+			return true
+		}
+	}
+	for _, x := range n.Elems {
+		if jnodeHasHTMLChar(x) {
+			return true
+		}
+	}
+	for _, x := range n.Vals {
+		if jnodeHasHTMLChar(x) {
+			return true
+		}
+	}
+	return false
+}
